@@ -16,6 +16,7 @@ EXTENDS Integers, Sequences, FiniteSets, TLC, Json, IOUtils, QSProb
 
 S == INSTANCE LPSem
 ED == INSTANCE ExactDriver WITH MaxMpf <- 12
+BF == INSTANCE BasisFile
 
 Tr == ndJsonDeserialize(IOEnv.TRACE)
 VerdictFile == IOEnv.VERDICT
@@ -41,6 +42,8 @@ NewH(lp, sync) == [live |-> TRUE, sync |-> sync, lp |-> lp,
                    taint |-> {},         \* tags of non-mutating calls since that observation
                    mut |-> TRUE,         \* a mutating call happened since that observation
                    edited |-> FALSE,     \* an edit happened since the last solve
+                   dirty |-> FALSE,      \* an edit happened since the last dump
+                   lastres |-> [none |-> TRUE],   \* [status, val] of the last solve / solution observation
                    truth |-> [none |-> TRUE],   \* verified witness of the LP's true status (reset by edits)
                    limits |-> FALSE]     \* iteration / objective limits set (non-definitive results legal)
 
@@ -50,7 +53,7 @@ R(s, v) == [s |-> s, v |-> v]
 Init == /\ l = 1
         /\ st = [h \in Handles |-> Dead]
         /\ slot = [b \in Slots |-> NoBas]
-        /\ glob = [handler |-> FALSE, prec |-> 128]
+        /\ glob = [handler |-> FALSE, prec |-> 128, files |-> {}]
         /\ ans = {}
         /\ viol = {}
         /\ cnt = [events |-> 0, dumps |-> 0, edits |-> 0, rejected |-> 0, optcerts |-> 0, farkas |-> 0, unb |-> 0,
@@ -107,7 +110,7 @@ ParDiff(par, ev) == IF ev.par.ppricing = par.ppricing /\ ev.par.dpricing = par.d
                        /\ ev.par.maxiter = par.maxiter /\ ev.par.scaling = par.scaling THEN {} ELSE {"parameters"}
 
 \* ------------------------------------------------------------------ bookkeeping on a handle state
-Edited(s)  == [s EXCEPT !.mut = TRUE, !.edited = TRUE, !.truth = [none |-> TRUE]]
+Edited(s)  == [s EXCEPT !.mut = TRUE, !.edited = TRUE, !.dirty = TRUE, !.truth = [none |-> TRUE], !.lastres = [none |-> TRUE]]
 Mutated(s) == [s EXCEPT !.mut = TRUE]
 Failed(s, tag)  == [s EXCEPT !.pend = @ \cup {tag}, !.taint = @ \cup {tag}]
 Touched(s, tag) == [s EXCEPT !.taint = @ \cup {tag}]
@@ -188,6 +191,74 @@ SolveResult(s, ev, x, hasx) ==
                      THEN {V(ev, {"C03"}, "optimal value differs from the verified optimum")} ELSE {})
   IN truthv
 
+
+\* ------------------------------------------------------------------ basis slots
+NoneR == [none |-> TRUE]
+IsNone(r) == "none" \in DOMAIN r
+BasOf(b) == IF "cstat" \in DOMAIN b /\ "rstat" \in DOMAIN b THEN [cstat |-> b.cstat, rstat |-> b.rstat, opt |-> NoneR, bsol |-> NoneR]
+            ELSE IF "cstat" \in DOMAIN b THEN [cstat |-> b.cstat, rstat |-> <<>>, opt |-> NoneR, bsol |-> NoneR]
+            ELSE IF "rstat" \in DOMAIN b THEN [cstat |-> <<>>, rstat |-> b.rstat, opt |-> NoneR, bsol |-> NoneR]
+            ELSE [cstat |-> <<>>, rstat |-> <<>>, opt |-> NoneR, bsol |-> NoneR]
+\* same basic set, same at-upper assignments; a nonbasic free column may come back as free ("3") instead of at-lower ("0")
+RoundTripBasisDefects(L, b1, b2) ==
+  IF IsNone(b1) \/ IsNone(b2) THEN {"a basis is missing"}
+  ELSE IF Len(b2.cstat) # Len(b1.cstat) \/ Len(b2.rstat) # Len(b1.rstat) THEN {"sizes differ"}
+  ELSE (IF \A j \in 1..Len(b1.cstat) : b1.cstat[j] = b2.cstat[j]
+              \/ ({b1.cstat[j], b2.cstat[j]} \subseteq {"0", "3"} /\ L.lo[j] = "-inf" /\ L.up[j] = "inf") THEN {} ELSE {"column statuses differ"})
+       \cup (IF b1.rstat = b2.rstat THEN {} ELSE {"row statuses differ"})
+
+\* ------------------------------------------------------------------ file round trip (C08 / C09)
+RowTerms(L, i) == {<<L.cname[L.A[i][k].j], L.A[i][k].v>> : k \in {k \in 1..Len(L.A[i]) : L.A[i][k].v # "0"}}
+RowHalves(L, i) == LET t == RowTerms(L, i) IN
+  CASE L.sense[i] = "L" -> {[t |-> t, k |-> "le", b |-> L.rhs[i]]}
+    [] L.sense[i] = "G" -> {[t |-> t, k |-> "ge", b |-> L.rhs[i]]}
+    [] L.sense[i] = "E" -> {[t |-> t, k |-> "eq", b |-> L.rhs[i]]}
+    [] OTHER -> {[t |-> t, k |-> "ge", b |-> L.rhs[i]], [t |-> t, k |-> "le", b |-> RAdd(L.rhs[i], L.range[i])]}
+NonEmptyRows(L) == {i \in 1..L.m : RowTerms(L, i) # {}}
+Halves(L) == UNION {RowHalves(L, i) : i \in NonEmptyRows(L)}
+\* an equation and the pair of its two inequalities denote the same constraint
+NormHalves(H) == UNION {IF h.k = "eq" THEN {[t |-> h.t, k |-> "ge", b |-> h.b], [t |-> h.t, k |-> "le", b |-> h.b]} ELSE {h} : h \in H}
+ColIdx(L, nm) == CHOOSE j \in 1..L.n : L.cname[j] = nm
+RowIdx(L, nm) == CHOOSE i \in 1..L.m : L.rname[i] = nm
+RoundTripDefects(L1, L2, native) ==    \* native: ranged rows must come back as ranged rows (MPS)
+  (IF L1.max = L2.max THEN {} ELSE {"objective sense"})
+  \cup (IF SetOfSeq(L1.cname) = SetOfSeq(L2.cname) /\ L1.n = L2.n THEN
+          (IF \A j \in 1..L1.n : LET k == ColIdx(L2, L1.cname[j]) IN
+                 L2.obj[k] = L1.obj[j] /\ L2.lo[k] = L1.lo[j] /\ L2.up[k] = L1.up[j] /\ L2.isint[k] = L1.isint[j]
+           THEN {} ELSE {"a column (matched by name) differs in objective coefficient, bounds or integrality"})
+          \cup (IF NormHalves(Halves(L1)) = NormHalves(Halves(L2)) THEN {} ELSE {"row constraints differ"})
+          \cup (IF \A i \in NonEmptyRows(L1) : (L1.sense[i] # "R" \/ native) =>
+                      /\ L1.rname[i] \in SetOfSeq(L2.rname)
+                      /\ LET k == RowIdx(L2, L1.rname[i]) IN
+                           /\ RowTerms(L2, k) = RowTerms(L1, i) /\ L2.sense[k] = L1.sense[i] /\ L2.rhs[k] = L1.rhs[i]
+                           /\ (L1.sense[i] = "R" => L2.range[k] = L1.range[i])
+                THEN {} ELSE {"a row (matched by name) differs"})
+          \cup (IF native => Cardinality(NonEmptyRows(L2)) = Cardinality(NonEmptyRows(L1)) THEN {} ELSE {"number of rows"})
+        ELSE {"column names differ"})
+
+\* ------------------------------------------------------------------ reduced precision copies (C16)
+\* d is the exact value of the converted number: within one unit in the last place (bits = 53 for double)
+ConvOK(q, d, bits) ==
+  IF S!IsInf(q) \/ S!IsInf(d) THEN q = d
+  ELSE IF q = "0" \/ d = "0" THEN q = d
+  ELSE LET e == RLog2(d) IN RLeq(RAbs(RSub(d, q)), RPow2(e - bits + 1))
+ConvSeqOK(qs, ds, bits) == Len(qs) = Len(ds) /\ \A k \in 1..Len(qs) : ConvOK(qs[k], ds[k], bits)
+ConvDefects(L, par, ev, bits) ==
+  IF ev.ok # 1 THEN {"copy failed"}
+  ELSE IF ev.nrows # L.m \/ ev.ncols # L.n THEN {"dimensions"}
+  ELSE (IF ev.objsense = (IF L.max THEN -1 ELSE 1) THEN {} ELSE {"objective sense"})
+       \cup (IF ConvSeqOK(L.obj, ev.obj, bits) THEN {} ELSE {"objective"})
+       \cup (IF ConvSeqOK(L.lo, ev.lo, bits) /\ ConvSeqOK(L.up, ev.up, bits) THEN {} ELSE {"bounds"})
+       \cup (IF ConvSeqOK(L.rhs, ev.rhs, bits) THEN {} ELSE {"rhs"})
+       \cup (IF ev.sense = L.sense THEN {} ELSE {"senses"})
+       \cup (IF ev.rv_rows = 0 /\ \A i \in 1..L.m :
+                   /\ Len(ev.rows[i]) = Len(L.A[i])
+                   /\ \A k \in 1..Len(L.A[i]) : \E e \in SetOfSeq(ev.rows[i]) : e.j + 1 = L.A[i][k].j /\ ConvOK(L.A[i][k].v, e.v, bits)
+             THEN {} ELSE {"coefficients / structure"})
+       \cup (IF \A i \in 1..L.m : L.sense[i] = "R" => (Len(ev.range) = L.m /\ ConvOK(L.range[i], ev.range[i], bits)) THEN {} ELSE {"ranges"})
+       \cup (IF ev.par.ppricing = par.ppricing /\ ev.par.dpricing = par.dpricing /\ ev.par.display = par.display /\ ev.par.scaling = par.scaling
+                /\ ev.par.maxiter = par.maxiter THEN {} ELSE {"parameters"})
+
 Step(ev) ==
   LET c == ev.call
       h == IF "h" \in DOMAIN ev THEN ev.h ELSE "h0"
@@ -207,9 +278,10 @@ Step(ev) ==
           [] c = "dump" ->
                IF ~s.sync THEN R([s EXCEPT !.sync = DumpOK(ev), !.lp = IF DumpOK(ev) THEN LPFromDump(ev) ELSE @, !.pend = {}, !.par = ev.par], {})
                ELSE LET d == DumpDiff(L, ev) \cup ParDiff(s.par, ev)
-                        tags == IF s.pend = {} THEN {"C06"} ELSE s.pend
-                    IN IF d = {} THEN R([s EXCEPT !.pend = {}, !.lp.rname = IF L.m = 0 THEN <<>> ELSE ev.rnames2, !.lp.cname = IF L.n = 0 THEN <<>> ELSE ev.cnames2], {})
-                       ELSE R([s EXCEPT !.pend = {}, !.lp = IF DumpOK(ev) THEN LPFromDump(ev) ELSE @, !.par = ev.par, !.sync = DumpOK(ev), !.truth = [none |-> TRUE]],
+                        \* no edit on this handle since the last dump and still different: another handle's call changed it (C16)
+                        tags == IF s.pend # {} THEN s.pend ELSE IF s.dirty THEN {"C06"} ELSE {"C06", "C16"}
+                    IN IF d = {} THEN R([s EXCEPT !.pend = {}, !.dirty = FALSE, !.lp.rname = IF L.m = 0 THEN <<>> ELSE ev.rnames2, !.lp.cname = IF L.n = 0 THEN <<>> ELSE ev.cnames2], {})
+                       ELSE R([s EXCEPT !.pend = {}, !.dirty = FALSE, !.lp = IF DumpOK(ev) THEN LPFromDump(ev) ELSE @, !.par = ev.par, !.sync = DumpOK(ev), !.truth = [none |-> TRUE]],
                               {V(ev, tags, "query results differ from the reference model: " \o ToString(d))})
           [] c = "new_col" -> Edit(s, ev, AddColValid(L, <<>>, ev.name), FALSE, AddCol(L, <<>>, ev.obj, ev.lo, ev.up, ev.name))
           [] c = "add_col" -> Edit(s, ev, AddColValid(L, ev.ent, ev.name), EntValid(ev.ent, L.m) /\ AddColUnspec(L, ev.ent),
@@ -343,7 +415,14 @@ Step(ev) ==
                                   \cup (IF ev.rval = 0 /\ ev.status = 1 /\ truth.status = 1 /\ hasxy /\ S!ObjVal(L, SubSeq(ev.x, 1, L.n)) # truth.val
                                    THEN {V(ev, {"C03"}, "optimal value differs from the verified optimum")} ELSE {})
                    vDef == IF c = "exact" /\ wf /\ ~s.limits /\ ~(ev.rval = 0 /\ Definitive(ev.status))
-                           THEN {V(ev, {"C03"}, "exact solver gave no definitive status on a well-formed LP (rval " \o ToString(ev.rval) \o ", status " \o ToString(ev.status) \o ")")}
+                           THEN {V(ev, {"C03"}, "exact solver gave no definitive status on a well-formed LP (rval " \o ToString(ev.rval) \o ", status " \o ToString(ev.status) \o ", rows " \o ToString(L.m) \o ", cols " \o ToString(L.n) \o ")")}
+                           ELSE {}
+                   \* a basis handed back with OPTIMAL: one basic variable per row, nonbasic variables at the bound their status names
+                   vBas == IF c = "exact" /\ ev.rval = 0 /\ ev.status = 1 /\ hasxy /\ ev.b # "-" /\ "cstat" \in DOMAIN ev.bout /\ "rstat" \in DOMAIN ev.bout
+                           THEN (IF ~S!BasisShapeOK(L, ev.bout.cstat, ev.bout.rstat)
+                                 THEN {V(ev, {"C12"}, "basis returned with OPTIMAL does not have one basic variable per row / legal statuses")}
+                                 ELSE LET ds == S!NonbasicAtStatus(L, ev.bout.cstat, ev.bout.rstat, ev.x) IN
+                                      IF ds = {} THEN {} ELSE {V(ev, {"C12"}, "basis returned with OPTIMAL does not describe the returned solution: " \o ToString(DefectText(ds)))})
                            ELSE {}
                    \* the events reported by the guarded hook must be a path of the ladder machine (ExactDriver.tla)
                    vLadder == IF c = "exact" /\ "hook" \in DOMAIN ev /\ ev.hook_over = 0
@@ -355,7 +434,11 @@ Step(ev) ==
                                          \cup (IF ev.hook[Len(ev.hook)].a # ev.status \/ ev.hook[Len(ev.hook)].b # ev.rval
                                                THEN {V(ev, {"C03"}, "returned status/rval differ from the driver's return event")} ELSE {}))
                               ELSE {}
-               IN R([Mutated(s) EXCEPT !.edited = FALSE], vOpt \cup vInf \cup vTruth \cup vDef \cup vLadder)
+               IN R([Mutated(s) EXCEPT !.edited = FALSE,
+                                       !.lastres = IF ev.rval = 0 /\ Definitive(ev.status)
+                                                   THEN [status |-> ev.status, call |-> c, val |-> IF ev.status = 1 /\ hasxy THEN S!ObjVal(L, SubSeq(ev.x, 1, L.n)) ELSE "?"]
+                                                   ELSE [none |-> TRUE]],
+                    vOpt \cup vInf \cup vTruth \cup vDef \cup vLadder \cup vBas)
           [] c = "sol" ->
                IF ~s.sync THEN R(s, {})
                ELSE
@@ -373,9 +456,12 @@ Step(ev) ==
                               sol |-> IF avail THEN Sol5(ev) ELSE <<>>,
                               bas |-> IF "cstat" \in DOMAIN ev THEN <<ev.cstat, ev.rstat>> ELSE <<>>]
                    vObs == IF ~s.mut /\ "none" \notin DOMAIN s.obs /\ s.obs # obsNow
-                           THEN {V(ev, IF s.taint = {} THEN {"C06"} ELSE s.taint, "stored solution / basis / status changed although no call since the last observation was allowed to change them")}
+                           \* empty taint = no call at all on this handle since the observation: interference from another handle (C16)
+                           THEN {V(ev, IF s.taint = {} THEN {"C06", "C16"} ELSE s.taint, "stored solution / basis / status changed although no call since the last observation was allowed to change them")}
                            ELSE {}
-               IN R([s EXCEPT !.obs = obsNow, !.mut = FALSE, !.taint = {}], vCert \cup vGs \cup vNamed \cup vObs)
+               IN R([s EXCEPT !.obs = obsNow, !.mut = FALSE, !.taint = {},
+                               !.lastres = IF avail /\ ~s.edited THEN [status |-> 1, call |-> IF IsNone(s.lastres) THEN "sol" ELSE s.lastres.call, val |-> ev.objval] ELSE @],
+                    vCert \cup vGs \cup vNamed \cup vObs)
           [] c = "get_infeas" ->
                IF ~s.sync \/ ev.rval # 0 THEN R(Touched(s, "C06"), {})
                ELSE LET ds == S!FarkasDefects(L, ev.y) IN
@@ -396,9 +482,44 @@ Step(ev) ==
                          \cup (IF badTab = {} THEN {} ELSE {V(ev, {"C13"}, "tableau row # row_i(B^-1) * [A | logicals] for rows " \o ToString(badTab))}))
           [] c = "write_basis" -> R(Touched(s, "C14"), {})
           [] c \in {"write_prob"} -> R(Touched(s, "C08"), {})
-          [] c \in {"get_basis", "get_basis_array", "binv_row", "tableau_row", "basis_order", "copy_conv"} -> R(Touched(s, "C06"), {})
+          [] c \in {"get_basis", "get_basis_array", "binv_row", "tableau_row", "basis_order"} -> R(Touched(s, "C06"), {})
           [] c \in {"load_basis", "load_basis_array", "read_and_load_basis"} -> IF ev.rval = 0 THEN R(Mutated(s), {}) ELSE R(Failed(s, "C07"), {})
-          [] c \in {"basis_optimalstatus", "basis_dualstatus", "verify", "pivotin_row", "pivotin_col", "compute_row_norms"} -> R(Mutated(s), {})
+          [] c \in {"basis_optimalstatus", "basis_dualstatus", "verify"} ->
+               IF ~s.sync \/ IsNone(slot[ev.b]) THEN R(Mutated(s), {})
+               ELSE
+               LET B == slot[ev.b]
+                   shapeOK == S!BasisShapeOK(L, B.cstat, B.rstat)
+                   optHere == ~IsNone(B.opt) /\ B.opt.c = Content(L)
+                   solHere == ~IsNone(B.bsol) /\ B.bsol.c = Content(L) /\ B.bsol.sing = 0
+                   pf == S!BasisPrimalFeasible(L, B.bsol.xs)
+                   df == S!BasisDualFeasible(L, B.cstat, B.rstat, B.bsol.pi)
+                   dobjTrue == LET v == S!ObjVal(L, SubSeq(B.bsol.xs, 1, L.n)) IN IF L.max THEN RNeg(v) ELSE v
+                   want == IF c = "basis_optimalstatus" THEN pf /\ df ELSE df
+                   \* QSexact_verify with the pre-step first solves the LP warm-started from the basis: it may answer 1 with the
+                   \* optimal value of the LP (in the user's sign) instead of the dual bound of the given basis - documented behaviour
+                   pre == c = "verify" /\ ev.pre = 1
+                   optKnown == {a \in ans : a.c = Content(L) /\ a.status = 1 /\ a.val # "?"}
+                   \* ... or, when that solve is not certified, the dual bound of the basis the float solve ended in: any valid dual bound
+                   preOK == pre /\ ev.rval = 0 /\ ev.result = 1
+                            /\ (optKnown = {} \/ \E a \in optKnown : ev.dobjval = a.val \/ RLeq(ev.dobjval, IF L.max THEN RNeg(a.val) ELSE a.val))
+               IN IF ~shapeOK THEN R(Mutated(s), {})      \* malformed basis: C07's business
+                  ELSE R(Mutated(s),
+                    (IF optHere /\ ~(ev.rval = 0 /\ ev.result = 1)
+                     THEN {V(ev, {"C12"}, "the basis returned with OPTIMAL is not confirmed by " \o c \o " (rval " \o ToString(ev.rval) \o ", result " \o ToString(ev.result) \o ")")} ELSE {})
+                    \cup (IF optHere /\ c # "basis_optimalstatus" /\ ev.rval = 0 /\ ev.result = 1 /\ B.opt.val # "?"
+                             /\ ev.dobjval # (IF L.max THEN RNeg(B.opt.val) ELSE B.opt.val) /\ ~(pre /\ ev.dobjval = B.opt.val)
+                     THEN {V(ev, {"C12"}, "dual bound of the optimal basis differs from the optimal value")} ELSE {})
+                    \cup (IF solHere /\ ev.rval # 0
+                     THEN {V(ev, {"C12"}, "verdict function failed on a non-singular basis")} ELSE {})
+                    \cup (IF solHere /\ ev.rval = 0 /\ (ev.result = 1) # want /\ ~preOK
+                     THEN {V(ev, {"C12"}, c \o " answers " \o ToString(ev.result) \o " but the exact basic solution is " \o (IF pf THEN "primal feasible" ELSE "primal infeasible") \o " / " \o (IF df THEN "dual feasible" ELSE "dual infeasible"))} ELSE {})
+                    \cup (IF solHere /\ c # "basis_optimalstatus" /\ ev.rval = 0 /\ ev.result = 1 /\ df /\ ev.dobjval # dobjTrue /\ ~preOK
+                     THEN {V(ev, {"C12"}, "reported dual bound " \o ev.dobjval \o " is not the dual objective of the basis " \o dobjTrue)} ELSE {}))
+          [] c = "copy_conv" ->
+               IF ~s.sync THEN R(Touched(s, "C06"), {})
+               ELSE LET d == ConvDefects(L, s.par, ev, IF ev.type = "dbl" THEN 53 ELSE ev.prec) IN
+                    R(Touched(s, "C06"), IF d = {} THEN {} ELSE {V(ev, {"C16"}, "reduced-precision copy (" \o ev.type \o ") differs from the rational problem beyond conversion error: " \o ToString(d))})
+          [] c \in {"pivotin_row", "pivotin_col", "compute_row_norms"} -> R(Mutated(s), {})
           [] OTHER -> R(s, {})
   IN res
 
@@ -406,7 +527,7 @@ Step(ev) ==
 StepCopy(ev) ==
   LET src == st[ev.h] IN
   IF ~src.live THEN [h2 |-> Dead, v |-> {}]
-  ELSE IF ev.ok = 1 THEN [h2 |-> [NewH(src.lp, src.sync) EXCEPT !.par = src.par, !.limits = src.limits], v |-> {}]
+  ELSE IF ev.ok = 1 THEN [h2 |-> [NewH(src.lp, src.sync) EXCEPT !.par = src.par, !.limits = src.limits, !.pend = {"C16"}], v |-> {}]
   ELSE [h2 |-> Dead, v |-> {V(ev, {"C16"}, "copy failed")}]
 
 Crash(ev) == {V(ev, SetOfSeq(ev.props), "call did not return: " \o ev.why)}
@@ -421,7 +542,7 @@ Next ==
   /\ l' = l + 1
   /\ LET ev == Tr[l] IN
        /\ IF ev.call = "scenario" THEN
-             /\ st' = [h \in Handles |-> Dead] /\ slot' = [b \in Slots |-> NoBas] /\ ans' = {} /\ glob' = [handler |-> FALSE, prec |-> 128]
+             /\ st' = [h \in Handles |-> Dead] /\ slot' = [b \in Slots |-> NoBas] /\ ans' = {} /\ glob' = [handler |-> FALSE, prec |-> 128, files |-> {}]
              /\ viol' = viol
           ELSE IF ev.call = "CRASH" THEN
              /\ st' = [h \in Handles |-> Dead] /\ slot' = [b \in Slots |-> NoBas] /\ UNCHANGED <<ans, glob>>
@@ -433,6 +554,47 @@ Next ==
              /\ glob' = [glob EXCEPT !.handler = (ev.mode = "on")] /\ UNCHANGED <<st, slot, ans, viol>>
           ELSE IF ev.call = "precision" THEN
              /\ glob' = [glob EXCEPT !.prec = ev.bits] /\ UNCHANGED <<st, slot, ans, viol>>
+          ELSE IF ev.call = "bsol" THEN
+             \* untrusted witness of the basic solution of slot b for the LP of handle h: verified here
+             LET s0 == st[ev.h]  B == slot[ev.b]
+                 ok == s0.live /\ s0.sync /\ ~IsNone(B) /\ S!BasisShapeOK(s0.lp, B.cstat, B.rstat)
+                 good == ok /\ (IF ev.sing = 1 THEN S!BasisSingularWitness(s0.lp, B.cstat, B.rstat, ev.v)
+                                 ELSE S!BasicSolutionDefects(s0.lp, B.cstat, B.rstat, ev.xs, ev.pi) = {})
+             IN /\ slot' = IF good THEN [slot EXCEPT ![ev.b].bsol = [c |-> Content(s0.lp), sing |-> ev.sing, xs |-> IF ev.sing = 1 THEN <<>> ELSE ev.xs, pi |-> IF ev.sing = 1 THEN <<>> ELSE ev.pi]] ELSE slot
+                /\ viol' = viol \cup (IF good \/ ~ok THEN {} ELSE {V(ev, {"INCONCLUSIVE"}, "basic-solution witness does not verify")})
+                /\ UNCHANGED <<st, ans, glob>>
+          ELSE IF ev.call = "basis_file" THEN
+             \* the lines the library wrote for the basis in slot b (or the problem's own basis): must be BasisFile!Write
+             LET s0 == st[ev.h]
+                 B == IF ev.b # "-" THEN slot[ev.b]
+                      ELSE IF s0.live /\ "bas" \in DOMAIN s0.obs /\ s0.obs.bas # <<>> /\ ~s0.mut THEN [cstat |-> s0.obs.bas[1], rstat |-> s0.obs.bas[2]] ELSE NoneR
+                 known == s0.live /\ s0.sync /\ ~IsNone(B) /\ UNKNOWN \notin SetOfSeq(s0.lp.cname) /\ UNKNOWN \notin SetOfSeq(s0.lp.rname)
+                          /\ S!BasisShapeOK(s0.lp, B.cstat, B.rstat)
+                 want == BF!Write(B.cstat, B.rstat, s0.lp.cname, s0.lp.rname)
+             IN /\ viol' = viol \cup (IF known /\ ev.lines # want THEN {V(ev, {"C14"}, "basis file differs from the specified rendering of the basis: wrote " \o ToString(ev.lines) \o " expected " \o ToString(want))} ELSE {})
+                /\ glob' = [glob EXCEPT !.files = {f \in @ : f.f # ev.file} \cup {[f |-> ev.file, lines |-> ev.lines]}]
+                /\ UNCHANGED <<st, slot, ans>>
+          ELSE IF ev.call = "basis_rt" THEN
+             LET s0 == st[ev.h]
+                 d == IF s0.live /\ s0.sync /\ ~IsNone(slot[ev.b]) /\ S!BasisShapeOK(s0.lp, slot[ev.b].cstat, slot[ev.b].rstat)
+                      THEN RoundTripBasisDefects(s0.lp, slot[ev.b], slot[ev.b2]) ELSE {} IN
+             /\ viol' = viol \cup (IF d = {} THEN {} ELSE {V(ev, {"C14"}, "basis written to a file and read back differs: " \o ToString(d))})
+             /\ UNCHANGED <<st, slot, ans, glob>>
+          ELSE IF ev.call = "rt_check" THEN
+             LET s1 == st[ev.h]  s2 == st[ev.h2]
+                 d == IF s1.live /\ s1.sync /\ s2.live /\ s2.sync THEN RoundTripDefects(s1.lp, s2.lp, ev.fmt = "MPS")
+                      ELSE IF s1.live /\ s1.sync THEN {"the written file was not read back"} ELSE {} IN
+             /\ viol' = viol \cup (IF d = {} THEN {} ELSE {V(ev, SetOfSeq(ev.props), ev.fmt \o " file written and read back is a different problem: " \o ToString(d))})
+             /\ UNCHANGED <<st, slot, ans, glob>>
+          ELSE IF ev.call = "eq_answer" THEN
+             LET r1 == st[ev.h].lastres  r2 == st[ev.h2].lastres
+                 bad == ~IsNone(r1) /\ ~IsNone(r2) /\ (r1.status # r2.status \/ (r1.val # "?" /\ r2.val # "?" /\ r1.val # (IF "neg" \in DOMAIN ev /\ ev.neg = 1 THEN RNeg(r2.val) ELSE r2.val))) IN
+             /\ viol' = viol \cup (IF bad THEN {V(ev, SetOfSeq(ev.props), "answers differ: " \o ev.h \o " (" \o r1.call \o ": status " \o ToString(r1.status) \o ", value " \o r1.val \o ") vs "
+                                                                            \o ev.h2 \o " (" \o r2.call \o ": status " \o ToString(r2.status) \o ", value " \o r2.val \o ")")} ELSE {})
+             /\ UNCHANGED <<st, slot, ans, glob>>
+          ELSE IF ev.call \in {"mkbasis", "free_basis"} THEN
+             /\ slot' = [slot EXCEPT ![ev.b] = IF ev.call = "mkbasis" THEN BasOf(ev.bas) ELSE NoneR]
+             /\ viol' = viol \cup Quiet(ev) /\ UNCHANGED <<st, ans, glob>>
           ELSE IF "h" \in DOMAIN ev THEN
              LET r == Step(ev)
                  s0 == st[ev.h]
@@ -450,10 +612,23 @@ Next ==
              IN
              /\ st' = [st EXCEPT ![ev.h] = r.s]
              /\ viol' = viol \cup r.v \cup Quiet(ev)
+                        \cup (IF ev.call = "read_basis" /\ s0.live /\ s0.sync /\ UNKNOWN \notin SetOfSeq(s0.lp.cname) /\ UNKNOWN \notin SetOfSeq(s0.lp.rname)
+                                  /\ \E f \in glob.files : f.f = ev.file /\ BF!WellFormedLines(f.lines, s0.lp.cname, s0.lp.rname)
+                               THEN LET f == CHOOSE f \in glob.files : f.f = ev.file
+                                        want == BF!Read(f.lines, s0.lp.cname, s0.lp.rname, [j \in 1..s0.lp.n |-> s0.lp.lo[j] = "-inf" /\ s0.lp.up[j] = "inf"])
+                                    IN IF ev.ok = 1 /\ "cstat" \in DOMAIN ev.bas /\ "rstat" \in DOMAIN ev.bas /\ ev.bas.cstat = want.cstat /\ ev.bas.rstat = want.rstat THEN {}
+                                       ELSE IF ev.ok = 1 /\ s0.lp.n = 0 /\ s0.lp.m = 0 THEN {}
+                                       ELSE {V(ev, {"C14"}, "basis read from the file differs from what the file denotes: expected " \o ToString(want))}
+                               ELSE {})
                         \cup (IF clash = {} THEN {} ELSE {V(ev, {"C04", "C05"}, "definitive answer (" \o ev.call \o ": status " \o ToString(stat) \o ", value " \o val
                                    \o ") differs from an earlier one for the same LP content (" \o a1.call \o ": status " \o ToString(a1.status) \o ", value " \o a1.val \o ", event " \o ToString(a1.n) \o ")")})
-             /\ ans' = IF isSolve THEN ans \cup {[c |-> cont, status |-> stat, val |-> val, n |-> ev.n, call |-> ev.call]} ELSE ans
-             /\ UNCHANGED <<slot, glob>>
+             \* keep the first answer per content (a clash is reported once per later solve, it does not cascade)
+             /\ ans' = IF isSolve /\ clash = {} THEN ans \cup {[c |-> cont, status |-> stat, val |-> val, n |-> ev.n, call |-> ev.call]} ELSE ans
+             /\ slot' = IF ev.call \in {"get_basis", "read_basis"} THEN [slot EXCEPT ![ev.b] = IF ev.ok = 1 THEN BasOf(ev.bas) ELSE NoneR]
+                        ELSE IF ev.call = "exact" /\ ev.b # "-"
+                        THEN [slot EXCEPT ![ev.b] = [BasOf(ev.bout) EXCEPT !.opt = IF isSolveEv /\ ev.status = 1 THEN [c |-> cont, val |-> val] ELSE NoneR]]
+                        ELSE slot
+             /\ UNCHANGED glob
           ELSE
              /\ viol' = viol \cup Quiet(ev) /\ UNCHANGED <<st, slot, ans, glob>>
        /\ cnt' = [cnt EXCEPT !.events = @ + 1,
